@@ -160,6 +160,12 @@ class Monitor:
                            (k == "join" and (not rq.get("info", True) or not isinstance(rq.get("role"), str) or rq.get("role") not in ("Attacker", "Defender", "Benign"))))
             if bad_request and st in ("OK", "CREATED", "RESET_DONE"):
                 self.hit("C09", "bad request accepted", f"a request that is not well formed ({k}: {str(rq.get('_text') or '')[:160]}) was answered with {st} instead of an error status")
+        if st in ("CREATED", "RESET_DONE", "OK", "FORBIDDEN") and g._agent_states.get(addr) is not None:
+            import worldlib as _WL
+            shape = _WL.shape_errors(g._agent_states[addr])
+            if shape:
+                self.hit(["C15", "C11"], "held view is not made of sets",
+                         f"the view the coordinator holds when it answers {st} is not well-formed ({'; '.join(shape[:3])}): it is not equal to what the response decodes to")
         if st in ("CREATED", "RESET_DONE"):
             held = g._agent_states.get(addr)
             if held is not None and self.S.view_id(held) != self.S.view_id(obs["state"]):
@@ -410,7 +416,7 @@ def instrument(S, cfg, CR, goals):
     return M
 
 
-def run_sessions(ctx, prop, n_sessions, gen_opts, cfg_opts=None, extra_monitor=None, n_directed=36):
+def run_sessions(ctx, prop, n_sessions, gen_opts, cfg_opts=None, extra_monitor=None, n_directed=40, rename=False, scale=False):
     """Generate sessions, follow them with the model, collect this property's monitor hits."""
     CG, CR, nsgenv = _imports()
     rng0 = random.Random(ctx.seed * 104729 + int(prop[1:]))
@@ -419,6 +425,8 @@ def run_sessions(ctx, prop, n_sessions, gen_opts, cfg_opts=None, extra_monitor=N
     stats = {}
     labels = 0
     twin = {"sessions": 0, "connections_from_a_departed_agents_address": 0, "differences": 0}
+    rtwin = {"sessions": 0, "connections": 0, "differences": 0}
+    stwin = {"sessions": 0, "connections": 0, "differences": 0}
     for i in range(n_sessions):
         rng = random.Random(rng0.randrange(1 << 40))
         if i < n_directed:
@@ -493,6 +501,34 @@ def run_sessions(ctx, prop, n_sessions, gen_opts, cfg_opts=None, extra_monitor=N
             except Exception as e:
                 import traceback
                 ctx.stage_errors.append((f"reuse twin of session {i}", f"{type(e).__name__}: {e}\n{traceback.format_exc()[-600:]}"))
+        if scale:
+            try:
+                out4, errs4 = scale_twin(CR, cfg, draw, events)
+                stwin["sessions"] += 1
+                stwin["connections"] += len(out4)
+                if out4 != scale_outputs(ref_out) or len(errs4) != ref_errs:
+                    diff = [k for k in ref_out if out4.get(k) != scale_outputs(ref_out)[k]]
+                    stwin["differences"] += 1
+                    ctx.violations.append({"key": "rewards are not the configured numbers and their sums",
+                                           "what": f"the same session with the three configured rewards divided by 16 does not answer with every reward divided by 16 and everything else unchanged ({len(diff)} connection(s) differ, task errors {errs4[:1]}); the model does (C05_rewards_scale)",
+                                           "replay": {"kind": "coordinator_session_scale_twin", "config": cfg, "draw": draw, "events": events}})
+            except Exception as e:
+                import traceback
+                ctx.stage_errors.append((f"scale twin of session {i}", f"{type(e).__name__}: {e}\n{traceback.format_exc()[-600:]}"))
+        if rename:
+            try:
+                out3, errs3 = rename_twin(CR, cfg, draw, events)
+                rtwin["sessions"] += 1
+                rtwin["connections"] += len(out3)
+                if out3 != ref_out or len(errs3) != ref_errs:
+                    diff = [k for k in ref_out if out3.get(k) != ref_out[k]]
+                    rtwin["differences"] += 1
+                    ctx.violations.append({"key": "the game depends on the peer addresses",
+                                           "what": f"the same configuration, seed and messages give other responses when the connections come from other peer addresses (a one-to-one renaming that reverses their order): {len(diff)} connection(s) differ, task errors {errs3[:1]}; the model answers identically (C20_peer_addresses)",
+                                           "replay": {"kind": "coordinator_session_rename_twin", "config": cfg, "draw": draw, "events": events}})
+            except Exception as e:
+                import traceback
+                ctx.stage_errors.append((f"rename twin of session {i}", f"{type(e).__name__}: {e}\n{traceback.format_exc()[-600:]}"))
         p = os.path.join(casedir, f"sess_{i}.v")
         with open(p, "w") as f:
             f.write(txt)
@@ -528,6 +564,8 @@ def run_sessions(ctx, prop, n_sessions, gen_opts, cfg_opts=None, extra_monitor=N
         "traces_validated_against_impl": len(metas) - disagreements,
         "response_and_barrier_statistics": stats,
         "address_reuse_twins": twin,
+        **({"address_renaming_twins": rtwin} if rename else {}),
+        **({"reward_scaling_twins": stwin} if scale else {}),
         "disagreements_checked": labels, "model_impl_disagreements": disagreements,
         "samples": [[(e[0] if e[0] != "send" else f"send:{e[3].get('kind')}") for e in metas[0][2][:25]]] if metas else [],
     })
@@ -609,6 +647,70 @@ def reuse_twin(CR, cfg, draw, events):
         S2.close()
 
 
+def renamed_peer(a):
+    """A one-to-one renaming of the peer addresses that REVERSES their order (as tuples and as numbers)."""
+    ip, port = a
+    return (".".join(str(255 - int(o)) for o in ip.split(".")), 65535 - int(port))
+
+
+def rename_twin(CR, cfg, draw, events):
+    """The same session once more on the real coordinator with every connection coming from another peer address (a one-to-one,
+    order-reversing renaming): Props/C20_coord.v C20_peer_addresses says the model answers every connection exactly as before."""
+    S2 = CR.Session(cfg, draw=draw)
+    S2.d.on_segment = None
+    try:
+        for e in events:
+            peer = renamed_peer(tuple(e[1])) if e[0] == "connect" else None
+            apply_event(S2, e, peer)
+        S2.settle()
+        return norm_outputs(S2), [repr(x) for x in S2.d.task_errors]
+    finally:
+        S2.close()
+
+
+SCALE_K = 0.0625        # 1/16: exact in binary floating point, and it turns whole rewards into fractions finer than two decimals
+
+
+def scale_config(cfg, k=SCALE_K):
+    c2 = copy.deepcopy(cfg)
+    rew = (c2.get("env") or {}).get("rewards")
+    if isinstance(rew, dict):
+        for name in list(rew):
+            if isinstance(rew[name], (int, float)) and not isinstance(rew[name], bool):
+                rew[name] = rew[name] * k
+    return c2
+
+
+def scale_outputs(out, k=SCALE_K):
+    """What Props/C05_scale.v C05_rewards_scale says the scaled configuration answers: every reward k times, nothing else changed."""
+    out = copy.deepcopy(out)
+    for key, (rs, done) in out.items():
+        for r in rs:
+            doc = r[1]
+            if not isinstance(doc, dict):
+                continue
+            obs = doc.get("observation")
+            if isinstance(obs, dict) and isinstance(obs.get("reward"), (int, float)):
+                obs["reward"] = obs["reward"] * k
+            lt = (doc.get("message") or {}).get("last_trajectory") if isinstance(doc.get("message"), dict) else None
+            if isinstance(lt, dict) and isinstance(lt.get("trajectory"), dict):
+                lt["trajectory"]["rewards"] = [x * k for x in lt["trajectory"].get("rewards", [])]
+    return out
+
+
+def scale_twin(CR, cfg, draw, events):
+    """The same session on the real coordinator with the three configured rewards multiplied by 1/16."""
+    S2 = CR.Session(scale_config(cfg), draw=draw)
+    S2.d.on_segment = None
+    try:
+        for e in events:
+            apply_event(S2, e)
+        S2.settle()
+        return norm_outputs(S2), [repr(x) for x in S2.d.task_errors]
+    finally:
+        S2.close()
+
+
 def replay_session(ctx, prop, payload):
     """Re-run a recorded session on the real coordinator and re-apply this property's monitor."""
     CG, CR, nsgenv = _imports()
@@ -632,6 +734,54 @@ def replay_session(ctx, prop, payload):
                 print(key, "reused address :", [(r[1].get("status"), (r[1].get("observation") or {}).get("reward")) if isinstance(r[1], dict) else r for r in out.get(key, ([], None))[0]], " <-- differs")
         print(f"{reused} connection(s) came from the address of a departed agent; {bad} connection(s) answered differently; task errors: {errs}")
         if bad or errs:
+            print(f"VIOLATION property={prop} replay=(this file)")
+            return 1
+        return 0
+    if payload.get("kind") == "coordinator_session_scale_twin":
+        cfg, draw, events = payload["config"], payload.get("draw"), payload["events"]
+        S = CR.Session(cfg, draw=draw)
+        S.d.on_segment = None
+        try:
+            for e in events:
+                apply_event(S, e)
+            S.settle()
+            ref = scale_outputs(norm_outputs(S))
+        finally:
+            S.close()
+        out, errs = scale_twin(CR, cfg, draw, events)
+        bad = 0
+        brief = lambda rs_: [(r[1].get("status"), (r[1].get("observation") or {}).get("reward")) if isinstance(r[1], dict) else r for r in rs_]
+        for key in ref:
+            print(key, "expected (original rewards / 16):", brief(ref[key][0]))
+            if out.get(key) != ref[key]:
+                bad += 1
+                print(key, "configured rewards / 16        :", brief(out.get(key, ([], None))[0]), " <-- differs")
+        print(f"{bad} connection(s) differ from the scaled original; task errors: {errs}")
+        if bad:
+            print(f"VIOLATION property={prop} replay=(this file)")
+            return 1
+        return 0
+    if payload.get("kind") == "coordinator_session_rename_twin":
+        cfg, draw, events = payload["config"], payload.get("draw"), payload["events"]
+        S = CR.Session(cfg, draw=draw)
+        S.d.on_segment = None
+        try:
+            for e in events:
+                apply_event(S, e)
+            S.settle()
+            ref = norm_outputs(S)
+        finally:
+            S.close()
+        out, errs = rename_twin(CR, cfg, draw, events)
+        bad = 0
+        brief = lambda rs_: [(r[1].get("status"), sorted(h["ip"] for h in ((r[1].get("observation") or {}).get("state") or {}).get("controlled_hosts", []))) if isinstance(r[1], dict) else r for r in rs_]
+        for key in ref:
+            print(key, "original addresses:", brief(ref[key][0]))
+            if out.get(key) != ref[key]:
+                bad += 1
+                print(key, "renamed", renamed_peer(key), ":", brief(out.get(key, ([], None))[0]), " <-- differs")
+        print(f"{bad} connection(s) answered differently under the renaming; task errors: {errs}")
+        if bad:
             print(f"VIOLATION property={prop} replay=(this file)")
             return 1
         return 0
